@@ -1,6 +1,7 @@
 """C11 channels and signals: Coq theorems (Properties_C11.v) + lock-step correspondence of
 include/fiber_signal.h, include/fiber_channel.h (unbounded MPSC, bounded) and
-include/fiber_multi_channel.h (all header-only, compiled into the harnesses; the channel
+include/fiber_multi_channel.h (all header-only, compiled into the harnesses; also the single-producer channel over
+include/spsc_fifo.h, coq/SpChan.v, lock-step + monitor only; the channel
 mutex and the wait/wake/maintenance protocol are the real src/fiber_mutex.c,
 src/fiber_manager.c) on the T1 machine with coq/Signal.v, coq/UChan.v, coq/BChan.v
 (clients of coq/T1K.v via coq/ChanK.v) and coq/MChan.v, + implementation-side monitors."""
@@ -12,9 +13,10 @@ from vf import core
 
 THEOREMS = [
     "signal_word_domain", "signal_no_lost_raise", "signal_wake_after_sleep",
-    "chan_exactly_once_in_sender_order",
-    "bounded_capacity", "bounded_exactly_once_in_order",
-    "multichan_no_stranded_refuted",
+    "chan_exactly_once_in_sender_order", "chan_receiver_not_stranded",
+    "bounded_capacity", "bounded_exactly_once_in_order", "bounded_receiver_not_stranded",
+    "multichan_no_stranded_refuted", "multichan_capacity_partial",
+    "multichan_exactly_once_in_order_partial", "multichan_no_stranded_partial",
 ]
 T1_SOURCES = ["src/fiber_manager.c", "src/fiber.c", "src/fiber_mutex.c", "src/fiber_spinlock.c",
               "src/hazard_pointer.c"]
@@ -25,7 +27,8 @@ MSEND, MRECV = 1, 2
 L_WAITER, L_HEAD, L_TAIL, L_HIGH, L_LOW = 503, 507, 511, 515, 519
 
 PAIRS = [  # label = model = lowercase Coq file name, harness
-    ("signal", "h_signal.c"), ("uchan", "h_uchan.c"), ("bchan", "h_bchan.c"), ("mchan", "h_mchan.c")]
+    ("signal", "h_signal.c"), ("uchan", "h_uchan.c"), ("bchan", "h_bchan.c"), ("mchan", "h_mchan.c"),
+    ("spchan", "h_spchan.c")]
 
 
 def l_scr(t):
@@ -153,7 +156,7 @@ def mon_signal(case, tr, raw):
     return sw.at_end(blocked)
 
 
-def mon_uchan(case, tr, raw):
+def mon_uchan(case, tr, raw, tail_kind=4):
     if tr is None:
         return "implementation produced no trace: %s" % (raw or "")[:80]
     _, progs = parse_case(case)
@@ -176,7 +179,7 @@ def mon_uchan(case, tr, raw):
         why = sw.event(t, loc, kind, val, cur[0] == URECV)
         if why:
             return why
-        if loc == L_TAIL and kind // 10 == 4:
+        if loc == L_TAIL and kind // 10 == tail_kind:
             if cur[0] != USEND:
                 return "tail exchanged by a non-sender"
             order.append(cur[1] % 1000)
@@ -369,7 +372,14 @@ def mon_mchan(case, tr, raw):
     return None
 
 
-MONITORS = {"signal": mon_signal, "uchan": mon_uchan, "bchan": mon_bchan, "mchan": mon_mchan}
+def mon_spchan(case, tr, raw):
+    """single-producer channel: same oracle as the MPSC channel; the queue order is the order of
+    the producer's tail stores"""
+    return mon_uchan(case, tr, raw, tail_kind=3)
+
+
+MONITORS = {"signal": mon_signal, "uchan": mon_uchan, "bchan": mon_bchan, "mchan": mon_mchan,
+            "spchan": mon_spchan}
 
 
 # --------------------------------------------------------------------------
@@ -530,7 +540,28 @@ def gen_mchan(rng, tier):
     return cases, {"covering_send_vs_receive": ncov, "random_programs": nrand, "sequential": 20}
 
 
-GENS = {"signal": gen_signal, "uchan": gen_uchan, "bchan": gen_bchan, "mchan": gen_mchan}
+def gen_spchan(rng, tier):
+    cases = []
+    # covering: the producer's send (data, next, tail load, tail store, link, raise) lands after k
+    # steps of the consumer's trypop + wait
+    for k in range(0, 26):
+        for j in range(0, 6):
+            progs = [[(URECV, 0)] * 2, [(USEND, 2101), (USEND, 3102)]]
+            sched = [0] * (1 + k) + [1] * (3 + j) + [0] * 30 + [1] * 14
+            cases.append(core.fmt_case([1200], progs, sched))
+    ncov = len(cases)
+    nrand = 800 if tier == "quick" else 20000
+    for _ in range(nrand):
+        progs = uchan_progs(rng, 2, 4)
+        cases.append(core.fmt_case([1500], progs, core.random_sched(rng, 2, rng.randint(5, 160), rng.randrange(3))))
+    for _ in range(20):
+        k = rng.randint(1, 5)
+        progs = [[(USEND, (2 + i) * 1000 + 10 + i) for i in range(k)] + [(rng.choice([URECV, UTRY]), 0)] * k + [(UTRY, 0)]]
+        cases.append(core.fmt_case([400], progs, []))
+    return cases, {"covering_send_vs_receive": ncov, "random_programs": nrand, "sequential": 20}
+
+
+GENS = {"signal": gen_signal, "uchan": gen_uchan, "bchan": gen_bchan, "mchan": gen_mchan, "spchan": gen_spchan}
 
 
 def gen_cases(ctx, tier):
@@ -645,7 +676,7 @@ TRUSTED = [
     "extraction: ExtrOcamlBasic only; OCaml driver coq/extract/driver.ml",
     "rt/rt.c (TSan-hook baton scheduler) and rt/t1.c (T1 machine: real fiber_manager.c/fiber.c, one pthread per fiber; "
     "context switch, run queues and event layer replaced)",
-    "hand-written models coq/T1K.v + coq/ChanK.v (Signal.v, UChan.v, BChan.v) + coq/MChan.v; tie = identical per-access traces",
+    "hand-written models coq/T1K.v + coq/ChanK.v (Signal.v, UChan.v, BChan.v) + coq/MChan.v + coq/SpChan.v; tie = identical per-access traces",
     "SC interleaving; weak CAS = strong (x86); -O0 instrumented build",
 ]
 ASSUME = ["given C01 and C02 (a fiber behaves as a sequential process that is resumed once per wake-up): the T1 cut of DESIGN.md 3.4",
